@@ -71,7 +71,7 @@ inductive Out (α : Type) where
   | ok (a : α)
   | err (e : Err)
   | panic (k : PanicKind) (site : String)
-deriving Repr, Inhabited
+deriving Repr, Inhabited, DecidableEq
 
 namespace Out
 def bind {α β} (x : Out α) (f : α → Out β) : Out β :=
